@@ -6,34 +6,23 @@ import XlModel.Crypt
 namespace XlModel.Crypt
 open XlModel.Facts.C13
 
-/-- a full 4096-byte segment of `input[8:]` -/
-def fullSeg (i : Nat) : Seg :=
-  (i, packageOffset + packageEncryptionChunkSize * i, packageOffset + packageEncryptionChunkSize * (i + 1))
+/-- segment `i` of `N` bytes of cipher text, as positions in the stream -/
+def segOf (N i : Nat) : Seg :=
+  (i, packageOffset + packageEncryptionChunkSize * i, packageOffset + min (packageEncryptionChunkSize * (i + 1)) N)
 
-theorem agileLoop_good (q r : Nat) (hr1 : 1 ≤ r) (hr2 : r ≤ packageEncryptionChunkSize - packageOffset) :
-    ∀ d k f, k + d = q → d + 2 ≤ f →
-    agileLoop (packageEncryptionChunkSize * q + r + packageOffset) f (packageEncryptionChunkSize * k) k
-      = some ((List.range' k d).map fullSeg ++
-          [(q, packageOffset + packageEncryptionChunkSize * q, packageEncryptionChunkSize * q + r + packageOffset)]) := by
+theorem agileLoop_spec (N : Nat) : ∀ d k f,
+    k + d = (N + (packageEncryptionChunkSize - 1)) / packageEncryptionChunkSize → d ≤ f →
+    agileLoop N f (packageEncryptionChunkSize * k) k = (List.range' k d).map (segOf N) := by
   intro d
   induction d with
   | zero =>
-    intro k f hk hf
-    obtain ⟨g, rfl⟩ : ∃ g, f = g + 2 := ⟨f - 2, by omega⟩
-    have hkq : k = q := by omega
-    subst hkq
-    simp only [packageEncryptionChunkSize, packageOffset] at *
-    rw [agileLoop]
-    try simp only [packageEncryptionChunkSize, packageOffset]
-    have he2 : (if 4096 * k + 4096 > 4096 * k + r + 8 then 4096 * k + r + 8 else 4096 * k + 4096)
-        = 4096 * k + r + 8 := by split <;> omega
-    simp only [he2]
-    rw [if_pos (show 4096 * k < 4096 * k + r + 8 by omega),
-      if_neg (show ¬ (4096 * k + r + 8 + 8 < 4096 * k + r + 8) by omega),
-      if_neg (show ¬ (4096 * k + 8 > 4096 * k + r + 8) by omega)]
-    rw [agileLoop, if_neg (show ¬ (4096 * k + r + 8 < 4096 * k + r + 8) by omega)]
-    simp
-    omega
+    intro k f hk _
+    simp only [packageEncryptionChunkSize] at *
+    cases f with
+    | zero => rfl
+    | succ g =>
+      rw [agileLoop, if_neg (by omega)]
+      rfl
   | succ m ih =>
     intro k f hk hf
     obtain ⟨g, rfl⟩ : ∃ g, f = g + 1 := ⟨f - 1, by omega⟩
@@ -41,38 +30,21 @@ theorem agileLoop_good (q r : Nat) (hr1 : 1 ≤ r) (hr2 : r ≤ packageEncryptio
     simp only [packageEncryptionChunkSize, packageOffset] at *
     rw [agileLoop]
     try simp only [packageEncryptionChunkSize, packageOffset]
-    have he2 : (if 4096 * k + 4096 > 4096 * q + r + 8 then 4096 * q + r + 8 else 4096 * k + 4096)
-        = 4096 * (k + 1) := by split <;> omega
-    simp only [he2]
-    rw [if_pos (show 4096 * k < 4096 * q + r + 8 by omega),
-      if_pos (show 4096 * (k + 1) + 8 < 4096 * q + r + 8 by omega),
-      if_neg (show ¬ (4096 * k + 8 > 4096 * (k + 1) + 8) by omega)]
-    rw [hrec]
-    simp only [List.range'_succ, List.map_cons, List.cons_append, fullSeg, packageEncryptionChunkSize, packageOffset]
-    have e1 : 4096 * k + 8 = 8 + 4096 * k := by omega
-    have e2 : 4096 * (k + 1) + 8 = 8 + 4096 * (k + 1) := by omega
-    rw [e1, e2]
+    rw [if_pos (show 4096 * k < N by omega)]
+    have e : 4096 * k + 4096 = 4096 * (k + 1) := by omega
+    rw [e, hrec]
+    simp only [List.range'_succ, List.map_cons, segOf, packageEncryptionChunkSize, packageOffset]
+    congr 1
+    have h1 : 4096 * k + 8 = 8 + 4096 * k := by omega
+    have h2 : (if 4096 * (k + 1) > N then N else 4096 * (k + 1)) + 8 = 8 + min (4096 * (k + 1)) N := by
+      split <;> omega
+    rw [h1, h2]
 
-theorem specSegs_form (q r : Nat) (hr1 : 1 ≤ r) (hr2 : r ≤ packageEncryptionChunkSize) :
-    specSegs (packageEncryptionChunkSize * q + r)
-      = (List.range' 0 q).map fullSeg ++
-          [(q, packageOffset + packageEncryptionChunkSize * q, packageEncryptionChunkSize * q + r + packageOffset)] := by
+theorem specSegs_eq (N : Nat) :
+    specSegs N = (List.range' 0 ((N + (packageEncryptionChunkSize - 1)) / packageEncryptionChunkSize)).map (segOf N) := by
   unfold specSegs
-  simp only [packageEncryptionChunkSize, packageOffset] at *
-  have hc : (4096 * q + r + (4096 - 1)) / 4096 = q + 1 := by omega
-  rw [hc, List.range_succ, List.map_append, List.range_eq_range']
-  congr 1
-  · apply List.map_congr_left
-    intro i hi
-    simp only [List.mem_range'_1] at hi
-    simp only [fullSeg, packageEncryptionChunkSize, packageOffset]
-    have : min (4096 * (i + 1)) (4096 * q + r) = 4096 * (i + 1) := by omega
-    rw [this]
-  · simp only [List.map_cons, List.map_nil]
-    have : min (4096 * (q + 1)) (4096 * q + r) = 4096 * q + r := by omega
-    rw [this]
-    congr 3
-    omega
+  rw [List.range_eq_range']
+  rfl
 
 /-! ### UTF-16LE -/
 
